@@ -47,12 +47,16 @@ ASSUMPTIONS = [
     'optional field = a field for which the library\'s own reader yields None when it is blank; fields whose '
     'in-memory default is a number (tstart, const_timestep, gravity, the four ROCKS.1.1 fields with 0.0 defaults) '
     'and the record keys (names, counts that fix the number of following records) are not set to None',
-    'PARAM cannot be dropped (a t2data object always has a parameter dictionary); ELEME/CONNE are always announced '
-    '(a t2data object always has a grid); AUTOUGH2 models keep SIMUL first',
+    'PARAM cannot be dropped (a t2data object always has a parameter dictionary); an object without blocks / '
+    'connections has no ELEME / CONNE section (an empty ELEME block makes TOUGH2 overwrite the MESH file); AUTOUGH2 '
+    'models keep SIMUL first',
     'legal orders: ROCKS < ELEME < CONNE, MULTI < DIFFU, mesh and GENER < SHORT, mesh < COFT (connection history '
     'is resolved against the grid while reading)',
-    'SHORT, INCON and COFT only together with the blocks/connections they name; with a mesh side file the main '
-    'file holds no SHORT section and FOFT/COFT/GOFT hold names',
+    'SHORT and COFT only together with the blocks/connections they name (INCON entries need no grid: the mesh may '
+    'be in a side file that was not read); with a mesh side file the main file holds no SHORT section and '
+    'FOFT/COFT/GOFT hold names',
+    'the list of extra-precision sections is a set of names: it is also given in reverse order; the companion file '
+    'is looked for under every spelling of the path of the main file (relative / absolute, upper-case first letter)',
     'a dictionary-backed section (LINEQ) with every value None is an absent section, not a deviation',
     'table values avoid double-rounding ties between the 8-digit echo and the 9-digit extra-precision field',
     'the EOS name of MULTI is kept stripped in memory (read_multi strips it, the conversion code compares stripped '
@@ -1834,35 +1838,72 @@ def _chain(M, order, mode, flavour, end_kw, late=()):
     return viol, info
 
 
+def _wide_exponents(M):
+    """The model with a few reals whose decimal exponent needs three digits (a Fortran program prints them
+    without the exponent letter: 0.1237+106), in the main file, the mesh and the generator tables."""
+    M = copy.deepcopy(M)
+    if M.get('PARAM'):
+        M['PARAM']['tstop'] = V(4, 104)
+        M['PARAM']['derivative_increment'] = V(14, -108)
+    if M.get('ELEME'):
+        M['ELEME'][0]['volume'] = V(0, 105)
+    if M.get('CONNE'):
+        M['CONNE'][0]['area'] = V(2, 103)
+        M['CONNE'][0]['distance2'] = V(1, -103)
+    if M.get('ROCKS'):
+        M['ROCKS'][0]['k3'] = V(4, -116)
+    for g in M.get('GENER') or []:
+        if g['rate']:
+            g['rate'][-1] = V(3, 101, -1)
+    return M
+
+
 def _ref_written(M, order, exp_main, mode, flavour, end_kw, d, inp):
+    """The model as a Fortran program would write it, read by the library: plain E exponents through the
+    default conversion functions, and the other legal Fortran spellings (D exponents, blank for '+', three-digit
+    exponents without letter) through the library's Fortran conversion functions - main file, MESH file and
+    companion file alike."""
     import t2data
+    import fixed_format_file
     viol = []
     main = os.path.join(d, 'rw', 'model.dat')
-    try:
-        text = t2layout.write_main(M, exp_main, flavour, end_kw)
-        with open(main, 'w') as f:
-            f.write(text)
-        meshfile = ''
-        if mode['mesh'] == 'mesh':
-            meshfile = os.path.join(d, 'rw', 'MESH')
-            with open(meshfile, 'w') as f:
-                f.write(t2layout.write_mesh(M))
-        if mode['xp']:
-            with open(os.path.join(d, 'rw', 'model.pdat'), 'w') as f:
-                f.write(t2layout.write_pdat(M, [s for s in mode['xp'] if _has(M, s)]))
-    except ValueError as e:
-        return [('C01|harness|reference-writer|%s' % inp, 'reference writer cannot render the model: %s' % e)]
-    try:
-        with _quiet():
-            rr = t2data.t2data(main, meshfile)
-    except core.CaseTimeout:
-        raise
-    except Exception as e:
-        return [_exc_sig('read(fortran-style)', e, inp)]
-    kw = _cmp_kwargs(mode, 'rw')
-    diffs = t2canon.compare(M, t2canon.canon(rr), **kw)
-    _diff_viol('read(fortran-style)', diffs, inp, viol,
-               'library reading the model as written by the reference Fortran-style writer')
+    for style in ('E', 'D', 'blank-plus'):
+        Ms = M if style == 'E' else _wide_exponents(M)
+        tag = 'read(fortran-style)' if style == 'E' else 'read(fortran-style:%s,fortran_read_function)' % style
+        try:
+            t2layout.set_number_style(style)
+            text = t2layout.write_main(Ms, exp_main, flavour, end_kw)
+            with open(main, 'w') as f:
+                f.write(text)
+            meshfile = ''
+            if mode['mesh'] == 'mesh':
+                meshfile = os.path.join(d, 'rw', 'MESH')
+                with open(meshfile, 'w') as f:
+                    f.write(t2layout.write_mesh(Ms))
+            if mode['xp']:
+                with open(os.path.join(d, 'rw', 'model.pdat'), 'w') as f:
+                    f.write(t2layout.write_pdat(Ms, [s for s in mode['xp'] if _has(Ms, s)]))
+        except ValueError as e:
+            viol.append(('C01|harness|reference-writer|%s|%s' % (style, inp),
+                         'reference writer cannot render the model: %s' % e))
+            continue
+        finally:
+            t2layout.set_number_style('E')
+        try:
+            with _quiet():
+                if style == 'E':
+                    rr = t2data.t2data(main, meshfile)
+                else:
+                    rr = t2data.t2data(main, meshfile, read_function=fixed_format_file.fortran_read_function)
+        except (core.CaseTimeout, MemoryError):
+            raise
+        except Exception as e:
+            viol.append(_exc_sig(tag, e, inp))
+            continue
+        kw = _cmp_kwargs(mode, 'rw')
+        diffs = t2canon.compare(Ms, t2canon.canon(rr), **kw)
+        _diff_viol(tag, diffs, inp, viol,
+                   'library reading the model as written by the reference Fortran-style writer (%s exponents)' % style)
     return viol
 
 
